@@ -23,7 +23,7 @@ def run(chk, tier, seed):
     if U is None:
         chk.broken.append("harness does not build against /repo: " + binary[-1500:])
         return
-    roots = D.roots_for(U, exclude=())
+    roots = D.roots_for(U, exclude=("arrayvec",))
     versions = (0, 1, 2) if tier == "quick" else (0, 1, 2, 3, 7)
     lines, meta = [], {}
     n = 0
